@@ -23,8 +23,8 @@ type G struct {
 	budget  int
 	nhd     int
 	inWord  int  // depth of word nesting (heredocs only at depth <= 1)
-	sawCase bool // a case clause with items was generated: go.sh's parenthesis counter is unreliable afterwards
-	paren   int  // parenthesis depth as go.sh's lexer counts it: "((" is the arithmetic command only at depth 0
+	sawCase bool // a case clause with items was generated
+	paren   int  // parenthesis depth
 	// coverage of (parent production, slot, child production)
 	Pairs map[string]int
 }
@@ -608,12 +608,8 @@ func (g *G) compound() *Cmd {
 	case k < 6:
 		c = &Cmd{K: "group", Body: g.clist("group", true)}
 	case k < 7:
-		if g.paren > 0 || g.sawCase {
-			// inside ( ) or $( ), and after the unbalanced ")" of a case item, go.sh reads "((" as two subshells (POSIX leaves "((" ambiguous): outside the dialect
-			c = &Cmd{K: "group", Body: g.clist("group", true)}
-		} else {
-			c = &Cmd{K: "arith", Expr: g.atoms()}
-		}
+		// "((" is the arithmetic command at every parenthesis depth (inside ( ), $( ), after a case item)
+		c = &Cmd{K: "arith", Expr: g.atoms()}
 	case k < 10:
 		c = &Cmd{K: "for", Var: pickS(g, varNames), HasIn: g.p(7, 10)}
 		if c.HasIn {
